@@ -286,12 +286,14 @@ selector = quantifier + Keyword("of") + identifier_pattern
 selector.set_parse_action(ConditionSelector.from_parsed)
 
 operand = selector | identifier
+# Operators are whole words: an identifier like "notepad" must not be split into "not epad".
+operator_ident_chars = alphanums + "_-"
 condition = infix_notation(
     operand,
     [
-        ("not", 1, opAssoc.RIGHT, ConditionNOT.from_parsed),
-        ("and", 2, opAssoc.LEFT, ConditionAND.from_parsed),
-        ("or", 2, opAssoc.LEFT, ConditionOR.from_parsed),
+        (Keyword("not", ident_chars=operator_ident_chars), 1, opAssoc.RIGHT, ConditionNOT.from_parsed),
+        (Keyword("and", ident_chars=operator_ident_chars), 2, opAssoc.LEFT, ConditionAND.from_parsed),
+        (Keyword("or", ident_chars=operator_ident_chars), 2, opAssoc.LEFT, ConditionOR.from_parsed),
     ],
 )
 
